@@ -10,6 +10,7 @@ import (
 	"net/url"
 	"strings"
 	"testing"
+	"time"
 
 	"verif/harness/mon"
 	"verif/harness/run"
@@ -243,6 +244,11 @@ func c10RunOnce(r *run.Runner, base *FuzzCase, c c10Case, judge bool) (nops int,
 				// (e.g. the tail of a chunked dump): the entry still decodes in full
 				r.Count("truncation_harmless", 1)
 			case in.FromStore && anotherEntryUsable(ex):
+			case in.FromStore && readBeforeFault(ex):
+				// the entry had been read intact before the fault struck a later
+				// read of it (the cache looks again after a validation): what the
+				// client got was decoded from good bytes and, where needed, validated
+				r.Count("fault_after_a_good_read_of_the_entry", 1)
 			default:
 				r.Violation("store-fault-not-failed-open", fmt.Sprintf("fault=%s,result=%s", fname, ex.CacheStatus()), fmt.Sprintf("store fault %q struck before the foreground result, but the client did not get the origin's reply of this exchange; %s [base %d, store op %d]", fname, ex.Summary(), c.Base, c.Op), exSummaries(w))
 			}
@@ -288,6 +294,30 @@ func anotherEntryUsable(ex *sim.Exchange) bool {
 		}
 	}
 	return false
+}
+
+// readBeforeFault: every faulted foreground read was preceded, in the same
+// exchange, by an unfaulted read of the same key that returned the served body.
+func readBeforeFault(ex *sim.Exchange) bool {
+	found := false
+	for i, op := range ex.StoreOps {
+		if op.Fault == "" || !op.Fg || op.Op != "get" {
+			continue
+		}
+		ok := false
+		for _, prev := range ex.StoreOps[:i] {
+			if prev.Op == "get" && prev.Fg && prev.Fault == "" && prev.Err == "" && prev.Key == op.Key &&
+				(ex.BodySerial() != "" && bytes.Contains(prev.Value, []byte("TOK:"+ex.BodySerial()+":")) ||
+					ex.BodySerial() == "" && ex.XMsg() != "" && bytes.Contains(prev.Value, []byte("X-Msg: "))) {
+				ok = true
+			}
+		}
+		if !ok {
+			return false
+		}
+		found = true
+	}
+	return found
 }
 
 func TestC10Faults(t *testing.T) {
@@ -506,6 +536,80 @@ func TestC10OddHeaders(t *testing.T) {
 			if fail != "" {
 				r.Violation("hang", "bubble-deadlock,field="+f, "bubble failure: "+firstLine(fail), nil)
 			}
+		}
+	}
+	r.SetExhaustive(true)
+	r.Done()
+}
+
+// TestC10OddUpstream: an upstream RoundTripper other than net/http's may hand
+// over responses net/http itself never produces - here a response whose Header
+// map is nil (reading it is fine, the first write panics). Every path that
+// contacts the origin gets one: miss, bypass (HEAD, POST), foreground
+// validation, background revalidation (where a panic kills the process).
+func TestC10OddUpstream(t *testing.T) {
+	r := run.Start(t, "C10", "odd-upstream")
+	defer r.Finish()
+	stages := []string{"miss", "head", "post", "validation-200", "validation-304", "validation-503", "background-200", "background-304", "range"}
+	for i, stage := range stages {
+		if !r.Mine(i) {
+			continue
+		}
+		r.Begin(i, map[string]string{"nil_header_at": stage})
+		fail := r.Bubble(func() {
+			odd := false
+			w := sim.NewWorld(sim.WorldOpt{Handler: func(uc *sim.UpCall, req *http.Request) *sim.Reply {
+				rs := RespSpec{Status: 200, CC: []string{"max-age=10, stale-while-revalidate=20, stale-if-error=100"}, ETag: `"o"`, BodySize: 9}
+				if odd {
+					rs.NilHeader = true
+					switch {
+					case strings.HasSuffix(stage, "-304") && uc.Conditional():
+						rs = RespSpec{Status: 304, NilHeader: true}
+					case strings.HasSuffix(stage, "-503"):
+						rs = RespSpec{Status: 503, BodySize: 3, NilHeader: true}
+					}
+				}
+				if req.Method == "HEAD" {
+					rs.NoBody = true
+				}
+				return Render(&rs, uc.Enter, uc.Serial)
+			}})
+			defer w.Close()
+			judge := func(ex *sim.Exchange) {
+				r.AddEvaluations(1)
+				for _, vv := range mon.C10Basic(mon.Classify(w, ex)) {
+					r.Violation(vv.Clause, vv.Sig+",nil-header="+stage, vv.Msg, exSummaries(w))
+				}
+			}
+			const url = "http://a.example/oddup"
+			if stage != "miss" {
+				judge(w.Do(sim.ReqSpec{URL: url}))
+			}
+			switch {
+			case strings.HasPrefix(stage, "validation"):
+				time.Sleep(40 * time.Second) // stale, outside the stale-while-revalidate window
+			case strings.HasPrefix(stage, "background"):
+				time.Sleep(15 * time.Second) // stale, inside it
+			}
+			odd = true
+			spec := sim.ReqSpec{URL: url}
+			switch stage {
+			case "head":
+				spec.Method = "HEAD"
+			case "post":
+				spec.Method = "POST"
+			case "range":
+				spec.Header = map[string][]string{"Range": {"bytes=0-1"}}
+			}
+			ex := w.Do(spec)
+			w.Settle(ex, 5*time.Second)
+			judge(ex)
+			odd = false
+			judge(w.Do(sim.ReqSpec{URL: url}))
+			r.Nontrivial("oddup|" + stage)
+		})
+		if fail != "" {
+			r.Violation("hang", "bubble-deadlock,nil-header="+stage, "bubble failure: "+firstLine(fail), nil)
 		}
 	}
 	r.SetExhaustive(true)
